@@ -32,21 +32,21 @@ PROPS = {
          'assumptions': ['Go randomises map iteration per loop, so map-order dependence surfaces as a replica difference with probability growing with the number of runs (the proof obligation C07_sites_covered does not depend on that luck)',
                          'the nondeterminism-site list (Gen/Sites.v) is syntactic: map-typed locals / fields / parameters / results declared in the same package, go statements and errgroup.Go, select, time.Now/After/Since/Sleep, imported rand packages, sync.Pool'],
          'partial': 'the model-level statement is per site (order-insensitivity of the one remaining map-ordered loop, first-seen order of Lock); store flushing in sorted order is cosmos-sdk (trusted dependency) and is covered by the replica comparison only'},
- 'C08': {'runs': runs([{'family': 'goatblock', 'bin': 'ah', 'n': 200, 'shards': 2}, {'family': 'goatblock', 'bin': 'ah', 'n': 40, 'shards': 1, 'race': True, 'tag': 'race', 'seed_off': 7}],
-                      [{'family': 'goatblock', 'bin': 'ah', 'n': 3000, 'shards': 8}, {'family': 'goatblock', 'bin': 'ah', 'n': 400, 'shards': 2, 'race': True, 'tag': 'race', 'seed_off': 7}]),
+ 'C08': {'runs': runs([{'family': 'goatblock', 'bin': 'ah', 'n': 200, 'shards': 2}, {'family': 'goatblock', 'bin': 'ah', 'n': 40, 'shards': 1, 'race': True, 'tag': 'race', 'seed_off': 7}, {'family': 'faults', 'bin': 'ah', 'n': 50, 'shards': 1, 'tag': 'f'}],
+                      [{'family': 'goatblock', 'bin': 'ah', 'n': 3000, 'shards': 8}, {'family': 'goatblock', 'bin': 'ah', 'n': 400, 'shards': 2, 'race': True, 'tag': 'race', 'seed_off': 7}, {'family': 'faults', 'bin': 'ah', 'n': 500, 'shards': 2, 'tag': 'f'}]),
          'monitor_props': ['C08'],
          'rule': 'on the real application behind ABCI: an honest proposal built by PrepareProposal on a well-behaved fake engine (mempool with admissible / foreign / stale transactions, due system transactions) and one mutation of it per case: payload fields (parent, number, beacon root, fee recipient, timestamp ahead, extra data, dropped / duplicated / reordered system transactions, request list shapes, blob gas) and structure (other proposer, foreign signer, second block message, block message not first, two messages in the first tx, 17 transactions, empty proposal); ProcessProposal verdict and the FinalizeBlock result of the block message are compared with the model; the same family under the Go race detector; distinct = distinct (mutation, verdict)',
          'assumptions': ['the payload facts (child of head, beacon root, ...) are computed by the harness from the proposal and the committed state and handed to the model as booleans; the model is the decision logic over them',
                          'the goroutine footprints (Gen/Footprint.v) are syntactic: selector reads/writes on the shared msg/payload inside each closure and inside the x/goat/types callees that receive the payload, assignments to captured variables']},
- 'C09': {'runs': runs([{'family': 'faults', 'bin': 'ah', 'n': 60, 'shards': 1}, {'family': 'goatblock', 'bin': 'ah', 'n': 100, 'shards': 1, 'tag': '1'}],
-                      [{'family': 'faults', 'bin': 'ah', 'n': 600, 'shards': 4}, {'family': 'goatblock', 'bin': 'ah', 'n': 2000, 'shards': 8, 'tag': '1'}]),
+ 'C09': {'runs': runs([{'family': 'faults', 'bin': 'ah', 'n': 60, 'shards': 1}, {'family': 'goatblock', 'bin': 'ah', 'n': 100, 'shards': 1, 'tag': '1'}, {'family': 'goatblock', 'bin': 'ah', 'n': 90, 'shards': 1, 'param': 'forced', 'tag': '2', 'seed_off': 3}],
+                      [{'family': 'faults', 'bin': 'ah', 'n': 600, 'shards': 4}, {'family': 'goatblock', 'bin': 'ah', 'n': 2000, 'shards': 8, 'tag': '1'}, {'family': 'goatblock', 'bin': 'ah', 'n': 1200, 'shards': 4, 'param': 'forced', 'tag': '2', 'seed_off': 3}]),
          'monitor_props': ['C09'],
-         'rule': 'engine fault kinds {error, INVALID, SYNCING, ACCEPTED, missing payload id, timeout} x call sites {forkchoice while proposing, getPayload, newPayload while checking, newPayload and forkchoice at end of block} on the real application (state on disk): committed or not, head before/after, reopen from disk and retry compared with a fault-free run; plus the proposal mutations of C08 for the head-step relation; distinct = distinct (phase, fault kind)',
+         'rule': 'engine fault kinds {error, INVALID, SYNCING, ACCEPTED, missing payload id, timeout} x call sites {forkchoice while proposing, getPayload, newPayload while checking, newPayload and forkchoice at end of block} on the real application (state on disk): committed or not, head before/after, reopen from disk and retry compared with a fault-free run; plus the proposal mutations of C08 for the head-step relation, and (state on disk) proposals that ProcessProposal rejected forced through FinalizeBlock without commit to observe the block message alone, then discarded by a restart; distinct = distinct (phase, fault kind)',
          'assumptions': ['the fake engine is the only execution layer; timeouts are the 1.2 s / 2 s context deadlines of the keeper']},
  'C10': {'runs': runs([{'family': 'ante', 'bin': 'ah', 'n': 400, 'shards': 2}], [{'family': 'ante', 'bin': 'ah', 'n': 4000, 'shards': 8}]),
          'monitor_props': ['C10'],
          'rule': 'every message type in the application interface registry x {CheckTx, ReCheck, PrepareProposal, ProcessProposal, FinalizeBlock} x signer {relayer proposer, validator, other} x memo {empty, x} x timeout {0, h-1, h, h+1} x bad signature, plus all ordered pairs of message types in one tx, through the real app.New behind ABCI with a fake engine; distinct = distinct (variant, mode)',
-         'assumptions': ['signature / sequence / pubkey decorators are cosmos-sdk (modelled as one boolean a_sig_ok); ReCheckTx does not re-verify signatures by design', 'in prepare/process modes baseapp also executes the messages, so admission is only observable for messages whose handler succeeds (others are skipped and counted)']},
+         'assumptions': ['signature / sequence / pubkey decorators are cosmos-sdk (modelled as one boolean a_sig_ok); ReCheckTx does not re-verify signatures by design']},
  'C11': {
    'runs': locking('C11'),
    'monitor_props': ['C11'],
@@ -104,8 +104,8 @@ PROPS = {
          'assumptions': ['a collections.Sequence never written reads as 0 and InitGenesis writes the 0: treated as equal', 'zero-valued slashed totals read as zero whether present or absent: treated as equal',
                          'relayer boarding queues are compared as multisets: InitGenesis rebuilds them from the voter records in address order while the running chain keeps request order; no query exposes the queue and the property asks for the same invariants (observation recorded in DESIGN.md)'],
          'partial': 'Coq theorems cover the locking module (the one with derived collections and validator hand-over); derived_ok / set_ok of every reached model state is evaluated in the correspondence run (components 15, 16), their inductive preservation proof is in progress; relayer and bitcoin round trips are decided by the differential run only'},
- 'C19': {'runs': runs([{'family': 'fuzz', 'bin': 'ah', 'n': 160, 'shards': 1}, {'family': 'bridge', 'n': 100, 'shards': 16, 'param': 'proj=C19,ops=45', 'tag': '1'}, {'family': 'locking', 'n': 100, 'shards': 16, 'param': 'proj=C19,blocks=12', 'tag': '2'}],
-                      [{'family': 'fuzz', 'bin': 'ah', 'n': 4000, 'shards': 4}, {'family': 'bridge', 'n': 2500, 'shards': 64, 'param': 'proj=C19,ops=70', 'tag': '1'}, {'family': 'locking', 'n': 2500, 'shards': 64, 'param': 'proj=C19,blocks=24', 'tag': '2'}]),
+ 'C19': {'runs': runs([{'family': 'fuzz', 'bin': 'ah', 'n': 160, 'shards': 1}, {'family': 'goatblock', 'bin': 'ah', 'n': 150, 'shards': 1, 'tag': '3', 'seed_off': 11}, {'family': 'bridge', 'n': 100, 'shards': 16, 'param': 'proj=C19,ops=45', 'tag': '1'}, {'family': 'locking', 'n': 100, 'shards': 16, 'param': 'proj=C19,blocks=12', 'tag': '2'}],
+                      [{'family': 'fuzz', 'bin': 'ah', 'n': 4000, 'shards': 4}, {'family': 'goatblock', 'bin': 'ah', 'n': 2000, 'shards': 4, 'tag': '3', 'seed_off': 11}, {'family': 'bridge', 'n': 2500, 'shards': 64, 'param': 'proj=C19,ops=70', 'tag': '1'}, {'family': 'locking', 'n': 2500, 'shards': 64, 'param': 'proj=C19,blocks=24', 'tag': '2'}]),
          'monitor_props': ['C19'],
          'rule': 'on the real application behind ABCI, two replicas: every chain message type with one shape mutation found by reflection (nil sub-message, nil / empty / doubled repeated field, byte fields of length 0,1,7,9,31,33,63,79,81,255,70000, boundary integers, odd strings), raw transaction bytes truncated / bit-flipped / extended / random, arbitrary decodable execution-layer request lists (13 request kinds with boundary amounts, unknown validators / tokens / ids, junk addresses), shape-mutated block messages; through CheckTx, PrepareProposal, ProcessProposal, FinalizeBlock, Commit; a failed input must leave the four module stores equal to the replica that never saw it; plus keeper-level histories whose result classes (ok / error / recovered panic) are predicted by the model; distinct = distinct (kind, message type, outcome)',
          'assumptions': ['a proposal rejected by ProcessProposal is never finalised (honest majority): rejected proposals are not forced into FinalizeBlock', 'messages that cannot be serialised (nil element of a repeated field) are not inputs a node can receive'],
